@@ -2,6 +2,34 @@
 // against their std counterparts over bounded operation histories.
 // A kernel interprets a history (operation codes + arguments chosen by the harness) on two live objects of the REAL container and copies
 // the observable state (size, elements, has_value, active alternative) to out-parameters. No container logic lives here.
+#include <stddef.h>
+#ifdef C19_POOL
+// Second build of this file (-DC19_POOL -DKSUFFIX=_pool): nmtools_malloc / nmtools_free (the library's allocator macros, utl/vector.hpp) are
+// redirected to a counting slot allocator over one static array. It plays the role of the C heap for deeper histories than CBMC's own heap
+// model reaches: every allocation gets a fresh slot (never reused), the words beyond the requested size carry a canary, the slot contents are
+// whatever the harness put there (indeterminate like malloc), and leaks / double frees / invalid frees / canary damage are counted.
+#define PSLOTS 18
+#define PWORDS 12
+static unsigned pool_mem[PSLOTS][PWORDS]; static unsigned char pool_state[PSLOTS]; static unsigned pool_req[PSLOTS];   // state: 0 never used, 1 live, 2 freed
+static unsigned pool_next, pool_live, pool_err;     // err bits: 1 exhausted / request too large, 2 double free, 4 invalid free, 8 canary damaged (write beyond the requested size)
+#define POOL_CANARY 0xC0DEC0DEu
+static inline void pool_check(unsigned s){ for (unsigned w = (pool_req[s] + 3) / 4; w < PWORDS; w++) if (pool_mem[s][w] != POOL_CANARY) pool_err |= 8; }
+extern "C" __attribute__((noinline)) void* k_pool_malloc(size_t n){
+  if (pool_next >= PSLOTS || n > PWORDS * sizeof(unsigned)) { pool_err |= 1; return (void*)&pool_mem[PSLOTS-1][0]; }   // bound of the model exceeded: reported, never silently
+  unsigned s = pool_next++; pool_state[s] = 1; pool_req[s] = (unsigned)n; pool_live++;
+  for (unsigned w = (unsigned)((n + 3) / 4); w < PWORDS; w++) pool_mem[s][w] = POOL_CANARY;
+  return (void*)&pool_mem[s][0];
+}
+extern "C" __attribute__((noinline)) void k_pool_free(void* p){
+  if (!p) return;
+  for (unsigned s = 0; s < PSLOTS; s++) if (p == (void*)&pool_mem[s][0]) {
+    if (pool_state[s] != 1) { pool_err |= 2; return; }
+    pool_check(s); pool_state[s] = 2; pool_live--; return; }
+  pool_err |= 4;
+}
+#define nmtools_malloc k_pool_malloc
+#define nmtools_free k_pool_free
+#endif
 #include "common.hpp"
 #include "nmtools/utl.hpp"
 #include "nmtools/utility/small_vector.hpp"
@@ -10,13 +38,28 @@
 // ---------------------------------------------------------------- vector-like kinds
 // op: 0 push_back(x[t], v)   1 x[t].resize(n)   2 x[t][i] = v   3 x[t] = x[1-t]   4 x[t] = x[t]
 //     5 { C c(x[1-t]); x[t] = c; } (copy-construct)   6 { C c(n); x[t] = c; } (sized construct)
+// concrete prefixes (the code is a per-query constant in the harness, so the heap layout before the symbolic steps is concrete; the values are symbolic):
+//   0 nothing   1 push x2   2 push x4 (initial buffer full)   3 push x5 (grown by push_back)   4 resize(6)   5 resize(6), resize(1) (shrunk)   6 push x3, resize(0)
 template <typename C>
-static inline void hist_vec(const unsigned char* ops, const unsigned char* tgt, const size_t* n, const int* v, size_t k,
+static inline void prefix_vec(C& x, int code, const int* pv){
+  switch (code) {
+    case 1: x.push_back(pv[0]); x.push_back(pv[1]); break;
+    case 2: x.push_back(pv[0]); x.push_back(pv[1]); x.push_back(pv[2]); x.push_back(pv[3]); break;
+    case 3: x.push_back(pv[0]); x.push_back(pv[1]); x.push_back(pv[2]); x.push_back(pv[3]); x.push_back(pv[4]); break;
+    case 4: x.resize(6); break;
+    case 5: x.resize(6); x.resize(1); break;
+    case 6: x.push_back(pv[0]); x.push_back(pv[1]); x.push_back(pv[2]); x.resize(0); break;
+    default: break;
+  }
+}
+template <typename C>
+static inline void hist_vec(int pre0, int pre1, const int* pv0, const int* pv1, const unsigned char* ops, const unsigned char* tgt, const size_t* n, const int* v, size_t k,
                             int* out0, size_t* n0, int* out1, size_t* n1, size_t outcap)
 {
-  C x[2];
+  C x0, x1; C* const x[2] = { &x0, &x1 };
+  prefix_vec(x0, pre0, pv0); prefix_vec(x1, pre1, pv1);
   for (size_t s = 0; s < k; s++) {
-    C& me = x[tgt[s] & 1]; C& other = x[(tgt[s] & 1) ^ 1];
+    C& me = (tgt[s] & 1) ? x1 : x0; C& other = (tgt[s] & 1) ? x0 : x1;
     switch (ops[s]) {
       case 0: me.push_back(v[s]); break;
       case 1: me.resize(n[s]); break;
@@ -27,12 +70,12 @@ static inline void hist_vec(const unsigned char* ops, const unsigned char* tgt, 
       default: { C c(n[s]); me = c; } break;
     }
   }
-  *n0 = x[0].size(); for (size_t i = 0; i < (size_t)x[0].size() && i < outcap; i++) out0[i] = x[0][i];
-  *n1 = x[1].size(); for (size_t i = 0; i < (size_t)x[1].size() && i < outcap; i++) out1[i] = x[1][i];
+  *n0 = x[0]->size(); for (size_t i = 0; i < (size_t)x[0]->size() && i < outcap; i++) out0[i] = (*x[0])[i];
+  *n1 = x[1]->size(); for (size_t i = 0; i < (size_t)x[1]->size() && i < outcap; i++) out1[i] = (*x[1])[i];
 }
-#define HIST(name, ...) KERNEL void K(name)(const unsigned char* ops, const unsigned char* tgt, const size_t* n, const int* v, size_t k, \
+#define HIST(name, ...) KERNEL void K(name)(int pre0, int pre1, const int* pv0, const int* pv1, const unsigned char* ops, const unsigned char* tgt, const size_t* n, const int* v, size_t k, \
                                             int* out0, size_t* n0, int* out1, size_t* n1, size_t outcap){ \
-  hist_vec< __VA_ARGS__ >(ops, tgt, n, v, k, out0, n0, out1, n1, outcap); }
+  hist_vec< __VA_ARGS__ >(pre0, pre1, pv0, pv1, ops, tgt, n, v, k, out0, n0, out1, n1, outcap); }
 HIST(k_hist_vector, utl::vector<int>)
 HIST(k_hist_static_vector, utl::static_vector<int,4>)
 HIST(k_hist_small_vector_stl, nm::small_vector<int,3,std::variant,utl::static_vector,std::vector>)
@@ -67,9 +110,9 @@ KERNEL size_t K(k_vector_copy)(const int* src, size_t n, size_t wi, int wv, int*
 // op: 0 x[t][i] = v   1 x[t] = x[1-t]   2 x[t] = x[t]   3 { C c(x[1-t]); x[t] = c; }   4 x[t].at(i) = v
 KERNEL void K(k_hist_array)(const unsigned char* ops, const unsigned char* tgt, const size_t* n, const int* v, size_t k, const int* init0, const int* init1, int* out0, int* out1){
   using C = utl::array<int,4>;
-  C x[2] = { C{init0[0],init0[1],init0[2],init0[3]}, C{init1[0],init1[1],init1[2],init1[3]} };
+  C x0{init0[0],init0[1],init0[2],init0[3]}, x1{init1[0],init1[1],init1[2],init1[3]}; C* const x[2] = { &x0, &x1 };
   for (size_t s = 0; s < k; s++) {
-    C& me = x[tgt[s] & 1]; C& other = x[(tgt[s] & 1) ^ 1];
+    C& me = (tgt[s] & 1) ? x1 : x0; C& other = (tgt[s] & 1) ? x0 : x1;
     switch (ops[s]) {
       case 0: me[n[s]] = v[s]; break;
       case 1: me = other; break;
@@ -78,16 +121,16 @@ KERNEL void K(k_hist_array)(const unsigned char* ops, const unsigned char* tgt, 
       default: me.at(n[s]) = v[s]; break;
     }
   }
-  for (size_t i = 0; i < x[0].size(); i++) { out0[i] = x[0][i]; out1[i] = x[1][i]; }
+  for (size_t i = 0; i < x[0]->size(); i++) { out0[i] = (*x[0])[i]; out1[i] = (*x[1])[i]; }
 }
 
 // ---------------------------------------------------------------- tuples: (int, unsigned char, size_t)
 // op: 0/1/2 get<0/1/2>(x[t]) = v   3 x[t] = x[1-t]   4 x[t] = x[t]   5 { T c(x[1-t]); x[t] = c; }
 template <typename T>
 static inline void hist_tuple(const unsigned char* ops, const unsigned char* tgt, const size_t* v, size_t k, const size_t* init, size_t* out){
-  T x[2] = { T{(int)init[0], (unsigned char)init[1], init[2]}, T{(int)init[3], (unsigned char)init[4], init[5]} };
+  T x0{(int)init[0], (unsigned char)init[1], init[2]}, x1{(int)init[3], (unsigned char)init[4], init[5]}; T* const x[2] = { &x0, &x1 };
   for (size_t s = 0; s < k; s++) {
-    T& me = x[tgt[s] & 1]; T& other = x[(tgt[s] & 1) ^ 1];
+    T& me = (tgt[s] & 1) ? x1 : x0; T& other = (tgt[s] & 1) ? x0 : x1;
     switch (ops[s]) {
       case 0: utl::get<0>(me) = (int)v[s]; break;
       case 1: utl::get<1>(me) = (unsigned char)v[s]; break;
@@ -97,7 +140,7 @@ static inline void hist_tuple(const unsigned char* ops, const unsigned char* tgt
       default: { T c(other); me = c; } break;
     }
   }
-  for (int t = 0; t < 2; t++) { out[3*t] = (size_t)(long)utl::get<0>(x[t]); out[3*t+1] = utl::get<1>(x[t]); out[3*t+2] = utl::get<2>(x[t]); }
+  for (int t = 0; t < 2; t++) { out[3*t] = (size_t)(long)utl::get<0>(*x[t]); out[3*t+1] = utl::get<1>(*x[t]); out[3*t+2] = utl::get<2>(*x[t]); }
 }
 KERNEL void K(k_hist_tuple)(const unsigned char* ops, const unsigned char* tgt, const size_t* v, size_t k, const size_t* init, size_t* out){
   hist_tuple< utl::tuple<int,unsigned char,size_t> >(ops, tgt, v, k, init, out); }
@@ -108,9 +151,9 @@ KERNEL void K(k_hist_tuplev2)(const unsigned char* ops, const unsigned char* tgt
 // op: 0 x[t] = v   1 x[t] = nothing   2 x[t] = x[1-t]   3 x[t] = x[t]   4 { M c(x[1-t]); x[t] = c; }   5 { M c(v); x[t] = c; }   6 *x[t] = v (write through)
 template <typename M, typename V>
 static inline void hist_maybe(const unsigned char* ops, const unsigned char* tgt, const V* v, size_t k, int* has, V* val){
-  M x[2];
+  M x0, x1; M* const x[2] = { &x0, &x1 };
   for (size_t s = 0; s < k; s++) {
-    M& me = x[tgt[s] & 1]; M& other = x[(tgt[s] & 1) ^ 1];
+    M& me = (tgt[s] & 1) ? x1 : x0; M& other = (tgt[s] & 1) ? x0 : x1;
     switch (ops[s]) {
       case 0: me = v[s]; break;
       case 1: me = utl::nothing; break;
@@ -121,7 +164,7 @@ static inline void hist_maybe(const unsigned char* ops, const unsigned char* tgt
       default: *me = v[s]; break;
     }
   }
-  for (int t = 0; t < 2; t++) { has[t] = x[t].has_value() ? 1 : 0; if (x[t].has_value()) val[t] = x[t].value(); }
+  for (int t = 0; t < 2; t++) { has[t] = x[t]->has_value() ? 1 : 0; if (x[t]->has_value()) val[t] = x[t]->value(); }
 }
 KERNEL void K(k_hist_maybe_int)(const unsigned char* ops, const unsigned char* tgt, const int* v, size_t k, int* has, int* val){
   hist_maybe< utl::maybe<int>, int >(ops, tgt, v, k, has, val); }
@@ -132,9 +175,9 @@ KERNEL void K(k_hist_maybe_f64)(const unsigned char* ops, const unsigned char* t
 // op: 0 x[t] = (int)v   1 x[t] = (unsigned char)v   2 x[t] = x[1-t]   3 x[t] = x[t]   4 { E c(x[1-t]); x[t] = c; }   5 { E c((int)v); x[t] = c; }   6 { E c((unsigned char)v); x[t] = c; }
 KERNEL void K(k_hist_either)(const unsigned char* ops, const unsigned char* tgt, const int* v, size_t k, int* idx, int* val){
   using E = utl::either<int,unsigned char>;
-  E x[2];
+  E x0, x1; E* const x[2] = { &x0, &x1 };
   for (size_t s = 0; s < k; s++) {
-    E& me = x[tgt[s] & 1]; E& other = x[(tgt[s] & 1) ^ 1];
+    E& me = (tgt[s] & 1) ? x1 : x0; E& other = (tgt[s] & 1) ? x0 : x1;
     switch (ops[s]) {
       case 0: me = (int)v[s]; break;
       case 1: me = (unsigned char)v[s]; break;
@@ -146,9 +189,9 @@ KERNEL void K(k_hist_either)(const unsigned char* ops, const unsigned char* tgt,
     }
   }
   for (int t = 0; t < 2; t++) {
-    idx[t] = (int)x[t].index();
-    if (auto p = nm::get_if<int>(&x[t])) val[t] = *p; else if (auto q = nm::get_if<unsigned char>(&x[t])) val[t] = *q; else val[t] = -1;
-    idx[t] += 10 * ((nm::get_if<int>(&x[t]) ? 1 : 0) + (nm::get_if<unsigned char>(&x[t]) ? 2 : 0));   // which get_if answers
+    idx[t] = (int)x[t]->index();
+    if (auto p = nm::get_if<int>(x[t])) val[t] = *p; else if (auto q = nm::get_if<unsigned char>(x[t])) val[t] = *q; else val[t] = -1;
+    idx[t] += 10 * ((nm::get_if<int>(x[t]) ? 1 : 0) + (nm::get_if<unsigned char>(x[t]) ? 2 : 0));   // which get_if answers
   }
 }
 
@@ -156,9 +199,9 @@ KERNEL void K(k_hist_either)(const unsigned char* ops, const unsigned char* tgt,
 // op: 0 x[t] = (int)v   1 x[t] = vector{v, v+1}   2 x[t] = x[1-t]   3 x[t] = x[t]   4 { E c(x[1-t]); x[t] = c; }
 KERNEL void K(k_hist_either_heap)(const unsigned char* ops, const unsigned char* tgt, const int* v, size_t k, int* idx, int* val, size_t* len){
   using V = utl::vector<int>; using E = utl::either<int,V>;
-  E x[2];
+  E x0, x1; E* const x[2] = { &x0, &x1 };
   for (size_t s = 0; s < k; s++) {
-    E& me = x[tgt[s] & 1]; E& other = x[(tgt[s] & 1) ^ 1];
+    E& me = (tgt[s] & 1) ? x1 : x0; E& other = (tgt[s] & 1) ? x0 : x1;
     switch (ops[s]) {
       case 0: me = (int)v[s]; break;
       case 1: { V w; w.push_back(v[s]); w.push_back(v[s] + 1); me = w; } break;
@@ -168,17 +211,17 @@ KERNEL void K(k_hist_either_heap)(const unsigned char* ops, const unsigned char*
     }
   }
   for (int t = 0; t < 2; t++) {
-    idx[t] = (int)x[t].index(); len[t] = 0;
-    if (auto p = nm::get_if<int>(&x[t])) val[t] = *p;
-    else if (auto q = nm::get_if<V>(&x[t])) { len[t] = q->size(); val[t] = q->size() ? (*q)[0] : 0; }
+    idx[t] = (int)x[t]->index(); len[t] = 0;
+    if (auto p = nm::get_if<int>(x[t])) val[t] = *p;
+    else if (auto q = nm::get_if<V>(x[t])) { len[t] = q->size(); val[t] = q->size() ? (*q)[0] : 0; }
   }
 }
 // op: 0 x[t] = vector{v, v+1}   1 x[t] = nothing   2 x[t] = x[1-t]   3 x[t] = x[t]   4 { M c(x[1-t]); x[t] = c; }
 KERNEL void K(k_hist_maybe_heap)(const unsigned char* ops, const unsigned char* tgt, const int* v, size_t k, int* has, int* val, size_t* len){
   using V = utl::vector<int>; using M = utl::maybe<V>;
-  M x[2];
+  M x0, x1; M* const x[2] = { &x0, &x1 };
   for (size_t s = 0; s < k; s++) {
-    M& me = x[tgt[s] & 1]; M& other = x[(tgt[s] & 1) ^ 1];
+    M& me = (tgt[s] & 1) ? x1 : x0; M& other = (tgt[s] & 1) ? x0 : x1;
     switch (ops[s]) {
       case 0: { V w; w.push_back(v[s]); w.push_back(v[s] + 1); me = w; } break;
       case 1: me = utl::nothing; break;
@@ -188,7 +231,19 @@ KERNEL void K(k_hist_maybe_heap)(const unsigned char* ops, const unsigned char* 
     }
   }
   for (int t = 0; t < 2; t++) {
-    has[t] = x[t].has_value() ? 1 : 0; len[t] = 0; val[t] = 0;
-    if (x[t].has_value()) { len[t] = x[t].value().size(); val[t] = len[t] ? x[t].value()[0] : 0; }
+    has[t] = x[t]->has_value() ? 1 : 0; len[t] = 0; val[t] = 0;
+    if (x[t]->has_value()) { len[t] = x[t]->value().size(); val[t] = len[t] ? x[t]->value()[0] : 0; }
   }
 }
+
+#ifdef C19_POOL
+// harness interface of the slot allocator: reset with caller-chosen (indeterminate) contents; report live blocks and error bits after a history
+KERNEL void K(k_pool_reset)(const unsigned* junk){
+  for (unsigned s = 0; s < PSLOTS; s++) { pool_state[s] = 0; pool_req[s] = 0; for (unsigned w = 0; w < PWORDS; w++) pool_mem[s][w] = junk[w]; }
+  pool_next = 0; pool_live = 0; pool_err = 0;
+}
+KERNEL unsigned K(k_pool_report)(unsigned* live, unsigned* used){
+  for (unsigned s = 0; s < PSLOTS; s++) if (pool_state[s] == 1) pool_check(s);
+  *live = pool_live; *used = pool_next; return pool_err;
+}
+#endif
